@@ -59,6 +59,16 @@ def run(tier, replay):
             elif x["status"] != 0:
                 V.violation("session ended with status %d" % x["status"], desc)
         mj = os.path.join(wd, "mapr.json")
+        # several files in one request: every file gets the pattern and the options
+        tj = os.path.join(wd, "two.json")
+        rc, out = vlib.go_test(wd, "./internal/clients", OV, "TestC12TwoFiles", env={"VERIF_OUT": tj}, timeout=300)
+        if rc != 0 or not os.path.exists(tj):
+            raise vlib.Inconclusive("multi-file harness failed\n" + out[-2000:])
+        for tr in json.load(open(tj)):
+            files = tr["multi"] or {}
+            if tr["note"] or set(files) != {"probe.log", "second.log", "third.log"} and tr["single"] or any(sel != tr["single"] for sel in files.values()):
+                V.violation("a request for three files: the selection differs from file to file or from the request for one file alone",
+                            {k: tr[k] for k in ("regex", "invert", "b", "a", "m", "single", "note")} | {"per_file": {k: v[:12] for k, v in files.items()}})
         rc, out = vlib.go_test(wd, "./internal/clients", OV, "TestC12Mapr", env={"VERIF_OUT": mj}, timeout=300)
         if rc != 0 or not os.path.exists(mj):
             raise vlib.Inconclusive("mapr harness failed\n" + out[-2500:])
